@@ -333,6 +333,12 @@ func runC02Case(rep *verifrep.R, dir string, c c02Case) {
 			}
 			snapIndex := r.logs[r.applied-1].Index
 			r.f.betweenSnapshotAndPersist = nil
+			// raft appends entries to its log before they are applied: when the state machine
+			// is asked for a snapshot, the raft log is usually ahead of it
+			for k := 0; k < 3 && r.applied+k < len(r.logs); k++ {
+				r.f.logstore.StoreLog(r.logs[r.applied+k])
+				r.rep.Obs("snapshot.raft-log-entries-ahead-of-the-state-machine", 1)
+			}
 			if st.Kind == "snapshot-late" {
 				r.f.betweenSnapshotAndPersist = func() {
 					for k := 0; k < st.N && r.applied < len(r.logs); k++ {
